@@ -132,6 +132,11 @@ class Choice:
     def __repr__(self):
         return 'Choice<%d>' % len(self.alts)
 
+    __hash__ = object.__hash__
+
+    def __eq__(self, o): from . import ops; return ops.compare('==', self, o)
+    def __ne__(self, o): from . import ops; return ops.compare('!=', self, o)
+
 
 class Obj:
     def __init__(self, cls, name=None):
